@@ -68,6 +68,8 @@ type stUnder struct {
 	// failFirstSend: the first SendMsg on the (successfully created) stream fails
 	failFirstSend bool
 	sends         int
+	// eofNext: the next RecvMsg reports the end of the stream
+	eofNext bool
 }
 
 func (f *stUnder) Header() (metadata.MD, error) { f.r.add("u.Header", nil); return f.hdr, nil }
@@ -82,7 +84,14 @@ func (f *stUnder) SendMsg(m interface{}) error {
 	}
 	return nil
 }
-func (f *stUnder) RecvMsg(m interface{}) error { f.r.add("u.RecvMsg", m); return nil }
+func (f *stUnder) RecvMsg(m interface{}) error {
+	f.r.add("u.RecvMsg", m)
+	if f.eofNext {
+		f.eofNext = false
+		return io.EOF
+	}
+	return nil
+}
 
 type stUserKey struct{}
 
@@ -498,6 +507,50 @@ func stRunScenario(sc stScenario, idx int64) *stRun {
 		}
 		lateSendIssued = true
 	}
+	// the end of the stream: the underlying RecvMsg reports io.EOF; the stream object
+	// stays the one and only stream of this call (Trailer still delegates, a further
+	// SendMsg reaches it and creates nothing)
+	eofArg := new(int)
+	tailMsg := new(string)
+	*tailMsg = "after-eof"
+	tailIssued := false
+	if sc.cancel == "none" && !sc.firstSendErr && !sc.neverSends && rec.count("create.ok") == 1 && under != nil && idx%2 == 0 {
+		creationsBefore := rec.count("create.call")
+		trailersBefore := rec.count("u.Trailer")
+		under.eofNext = true
+		var eofErr error
+		var tailPanic interface{}
+		op := vStartOp(func() {
+			eofErr = cs.RecvMsg(eofArg)
+			_ = cs.Trailer()
+			_ = cs.SendMsg(tailMsg)
+		})
+		if st := op.awaitDone(500 * time.Millisecond); st != vDone {
+			h.fail("C12.blocked", "after-eof", "RecvMsg/Trailer/SendMsg after the end of the stream are blocked (%s)", st)
+			endAll()
+			return h
+		}
+		if op.panicked {
+			tailPanic = op.pval
+			h.fail("C12.panic", vPanicKind(tailPanic)+"@after-eof", "RecvMsg/Trailer/SendMsg after the end of the stream panicked: %v", tailPanic)
+			endAll()
+			return h
+		}
+		h.hit("C12.after-end-of-stream")
+		tailIssued = true
+		switch {
+		case eofErr != io.EOF:
+			h.fail("C12.recv-not-delegated", "eof", "the underlying stream's RecvMsg returned io.EOF, the wrapper returned %v", eofErr)
+		case rec.count("u.Trailer") != trailersBefore+1:
+			h.fail("C12.not-delegated", "Trailer(after-eof)", "Trailer() after the end of the stream did not reach the underlying stream")
+		case rec.count("create.call") != creationsBefore:
+			h.fail("C12.second-creation", "after-eof", "a SendMsg after the end of the stream invoked the streamer again")
+		}
+		if h.viol != nil {
+			endAll()
+			return h
+		}
+	}
 	endAll()
 
 	// ------------------------------------------------ offline check of the event log
@@ -506,6 +559,7 @@ func stRunScenario(sc stScenario, idx int64) *stRun {
 	successSeq, createDoneSeq := -1, -1
 	var uSent, uRecv []interface{}
 	lateSendSeen := false
+	tailSeen := false
 	createOKs := 0
 	for _, e := range evs {
 		switch e.what {
@@ -560,8 +614,15 @@ func stRunScenario(sc stScenario, idx int64) *stRun {
 				lateSendSeen = true
 				continue
 			}
+			if e.arg == interface{}(tailMsg) {
+				tailSeen = true
+				continue
+			}
 			uSent = append(uSent, e.arg)
 		case "u.RecvMsg":
+			if e.arg == interface{}(eofArg) {
+				continue
+			}
 			uRecv = append(uRecv, e.arg)
 		case "recv.ret":
 			if createDoneSeq < 0 && ctx.Err() == nil {
@@ -594,6 +655,10 @@ func stRunScenario(sc stScenario, idx int64) *stRun {
 			h.fail("C12.sends", "after-cancel", "a SendMsg issued after the stream was created and the call's context was cancelled did not reach the underlying stream")
 			return h
 		}
+	}
+	if tailIssued && !tailSeen {
+		h.fail("C12.sends", "after-eof", "a SendMsg issued after the underlying stream reported io.EOF did not reach the underlying stream")
+		return h
 	}
 	h.hit("C12.sends-in-order")
 	if len(okSent) != len(uSent) {
